@@ -116,7 +116,7 @@ func runC20(c *Ctx) {
 		nst++
 		fn := fs.Fn
 		key := fmt.Sprintf("ordered-append %s #%d", m.fnName(fn), nst)
-		gg := newIG(m, fn, nil)
+		gg := scanIG(m, fn, nil)
 		mlb := mapLoopBlocks(fn)
 		c.Evals++
 		if mt, inMap := mlb[fs.Store.Block()]; inMap {
